@@ -42,7 +42,7 @@ FIRST = {
 }
 LIB_CHECKS = ["C10", "C11", "C04", "C02", "C03", "C06", "C07", "C08", "C09", "C05", "C12", "C13",
               "C14", "C15", "C01", "C19", "C20"]
-APP_CHECKS = ["C16", "C18", "C17"]
+APP_CHECKS = ["C17", "C18", "C16"]
 
 OPS = [
     (r"==", ["!="]), (r"!=", ["=="]),
@@ -192,7 +192,7 @@ def sh(cmd, cwd=None, env=None, timeout=1800):
 
 
 def worker(idx, q, lock, apps, seed):
-    W = f"{WROOT}/auto-{idx}"
+    W = f"{WROOT}/auto-{'app' if apps else ''}{idx}"
     if not os.path.exists(os.path.join(W, ".git")):
         os.makedirs(WROOT, exist_ok=True)
         sh(["git", "-C", REPO, "worktree", "add", "--detach", W, "HEAD", "-q"])
